@@ -149,7 +149,7 @@ def prec(e):
     if k in ("lit", "chr", "var", "par", "call", "idx", "stridx", "str"):
         return 16
     if k == "sizeof":
-        return 16 if e[2] == "p" else 14
+        return 16 if (e[2] == "p" or e[1][0] == "cast") else 14
     if k == "post":
         return 15
     if k in ("un", "pre", "cast", "deref"):
@@ -217,7 +217,7 @@ def render_expr(e):
     if k == "str":
         return render_str(e[1])
     if k == "sizeof":
-        if e[2] == "p":
+        if e[2] == "p" or e[1][0] == "cast":       # `sizeof (T) x` is not C: a cast is no unary-expression
             return "sizeof(" + render_expr(e[1]) + ")"
         return "sizeof " + rx(e[1], 14)
     raise Invalid("render " + k)
@@ -1074,14 +1074,14 @@ class Gen:
         self.feat.add("sizeof")
         vs = [v for v in scope if v["kind"] in ("scalar", "arr", "ptr")]
         c = self.u()
+        nopar = "sizeof-noparen" not in self.avoid
         if vs and c < 0.6:
             v = self.pick(vs)
-            if "sizeof-paren" in self.avoid:
-                return ["sizeof", ["var", v["name"]], "n"]
-            return ["sizeof", ["var", v["name"]], self.pick(["p", "p", "n"])]
+            form = self.pick(["p", "p", "n"]) if nopar else "p"
+            if form == "n":
+                self.feat.add("sizeof-noparen")
+            return ["sizeof", ["var", v["name"]], form]
         if c < 0.75:
-            if "sizeof-paren" in self.avoid:
-                return ["sizeof", self.int_lit(0, 9), "n"]
             return ["sizeof", ["str", self.str_pieces()], "p"]
         # an unevaluated operand: may be anything, even undefined when evaluated
         save = (set(self.reads), set(self.locked))
@@ -1091,8 +1091,9 @@ class Gen:
         finally:
             self.no_embed -= 5
             self.reads, self.locked = save
-        if "sizeof-paren" in self.avoid:
-            return ["sizeof", ["par", e], "n"]
+        if nopar and self.p(0.2):
+            self.feat.add("sizeof-noparen")
+            return ["sizeof", e, "n"]
         return ["sizeof", e, "p"]
 
     def maybe_par(self, e, p=0.12):
@@ -1270,7 +1271,7 @@ class Gen:
 
     def ptr_stmt(self, scope):
         arrs = [v for v in scope if v["kind"] == "arr"]
-        scal = [v for v in scope if v["kind"] == "scalar" and v["t"] in ("int", "long", "double", "uint")]
+        scal = [v for v in scope if v["kind"] == "scalar" and v["t"] in ("int", "long", "double", "uint") and not v.get("noaddr")]
         if not arrs and not scal:
             return None, []
         nm = self.fresh("p")
@@ -1420,7 +1421,7 @@ class Gen:
                 en = self.pick(self.enums)
                 self.feat.add("enum-var")
                 return ["decl", "", "int", "enum E0", [[nm, ["lit", en[0], "int", en[1]]]]], \
-                       [{"name": nm, "kind": "scalar", "t": "int", "const": True}]
+                       [{"name": nm, "kind": "scalar", "t": "int", "const": True, "noaddr": True}]
             return self.str_stmt(scope)
         if c < 0.55:
             if in_loop and self.p(0.6):
